@@ -137,8 +137,10 @@ def parse_verus(path, mapf, rc, so, se):
         spans = d.get("spans", [])
         prim = [s for s in spans if s.get("is_primary")] or spans
         line = prim[0]["line_start"] if prim else 0
-        is_ver = any(p in msg for p in VERIF_FAIL_PATTERNS)
+        # Verus reached the verification stage (result JSON present, no VIR error): every remaining error is a failed
+        # obligation, except solver-budget messages
         is_res = any(p in msg for p in RESOURCE_PATTERNS)
+        is_ver = not is_res
         it, repo_line = locate(line)
         ent = {
             "message": msg,
@@ -435,6 +437,7 @@ def check_property(root, pid, tier, seed):
     clause_counts = {}
     samples = []
     canary_report = []
+    out_of_scope = []
     seeds_report = []
     cmds = []
     for kind, u, extra, r in results:
@@ -470,8 +473,13 @@ def check_property(root, pid, tier, seed):
                     assumptions_found.setdefault(cls, set()).add(l)
             bfun = set(base.get(u["unit"], {}).get("functions", []))
             if r["status"] == "fail":
+                scope = u.get("scope")
                 for fl in r["failures"]:
                     fl["unit"] = u["unit"]
+                    if scope is not None and fl.get("function") is not None and fl.get("function") not in scope:
+                        # a function of this unit that carries another property: not this property's obligation
+                        out_of_scope.append("%s::%s — %s" % (u["unit"], fl.get("function"), fl["message"]))
+                        continue
                     # which Verus function failed? use the breakdown (success=false) restricted to the located item
                     failed_fns = [k for k, v in r["functions"].items() if not v["success"]]
                     fl["failed_functions"] = failed_fns
@@ -534,7 +542,8 @@ def check_property(root, pid, tier, seed):
     wall = time.time() - t0
     # ---- evidence ----------------------------------------------------------------------------------
     level = P.get("level", "proof")
-    obligations = total_ver + total_err
+    # Verus' own error count is unit-wide; failed obligations that belong to another property of a shared unit are not counted here
+    obligations = total_ver + (total_err if not out_of_scope else len([v for v in violations if not v.get("kani")]) + len(known))
     discharged = total_ver
     n_canary_ok = sum(1 for c in canary_report if c["refuted_as_expected"])
     trusted_base = ["rustc 1.98.1 / Verus 0.2026.09.13 / Z3 (bundled)", "mtx extractor rules R1-R12 (DESIGN.md §2.1)"] + P.get("assumptions", [])
@@ -568,6 +577,7 @@ def check_property(root, pid, tier, seed):
             "assumption_lines": {k: len(v) for k, v in assumptions_found.items()},
             "not_decided": P.get("not_decided", []),
             "undecided": undecided,
+            "failed_obligations_of_other_properties_in_shared_units": out_of_scope,
             "known_findings_fixed": [f for f in fixed_findings if ("property=%s " % pid) in f],
             "repo": REPO,
         },
